@@ -62,6 +62,120 @@ type Store struct {
 	Vars  []*Term          // in creation order
 	UFs   map[string]*UFDecl
 	UFApps []*Term
+	ranges map[int][2]int64 // term ID -> signed value range known to hold on this path
+}
+
+// SetRange records that variable t (a BV) lies in [lo, hi] as a signed integer.
+func (st *Store) SetRange(t *Term, lo, hi int64) {
+	if st.ranges == nil {
+		st.ranges = map[int][2]int64{}
+	}
+	st.ranges[t.ID] = [2]int64{lo, hi}
+}
+
+const exactF = int64(1) << 53
+
+// RangeOf returns a signed range for a BV term when one is cheaply derivable.
+func (st *Store) RangeOf(t *Term, signed bool) (lo, hi int64, ok bool) {
+	if t.S.K != KBV {
+		return 0, 0, false
+	}
+	switch {
+	case t.Op == "const":
+		if signed {
+			v := sext(t.Val, t.S.W)
+			return v, v, true
+		}
+		if t.S.W == 64 && t.Val > 1<<62 {
+			return 0, 0, false
+		}
+		return int64(t.Val), int64(t.Val), true
+	case t.Op == "var":
+		if r, has := st.ranges[t.ID]; has && signed {
+			return r[0], r[1], true
+		}
+		if r, has := st.ranges[t.ID]; has && !signed && r[0] >= 0 {
+			return r[0], r[1], true
+		}
+	case t.Op == "bvadd" || t.Op == "bvsub":
+		if !signed {
+			return 0, 0, false
+		}
+		al, ah, ok1 := st.RangeOf(t.Args[0], true)
+		bl, bh, ok2 := st.RangeOf(t.Args[1], true)
+		if ok1 && ok2 && abs64(al) < 1<<60 && abs64(ah) < 1<<60 && abs64(bl) < 1<<60 && abs64(bh) < 1<<60 {
+			var l, h int64
+			if t.Op == "bvadd" {
+				l, h = al+bl, ah+bh
+			} else {
+				l, h = al-bh, ah-bl
+			}
+			if t.S.W < 64 {
+				lim := int64(1) << uint(t.S.W-1)
+				if l < -lim || h >= lim {
+					return 0, 0, false
+				}
+			}
+			return l, h, true
+		}
+	case t.Op == "ite":
+		al, ah, ok1 := st.RangeOf(t.Args[1], signed)
+		bl, bh, ok2 := st.RangeOf(t.Args[2], signed)
+		if ok1 && ok2 {
+			if bl < al {
+				al = bl
+			}
+			if bh > ah {
+				ah = bh
+			}
+			return al, ah, true
+		}
+	case strings.HasPrefix(t.Op, "(_ sign_extend"):
+		return st.RangeOf(t.Args[0], true)
+	case strings.HasPrefix(t.Op, "(_ zero_extend"):
+		a := t.Args[0]
+		if l, h, ok := st.RangeOf(a, false); ok {
+			return l, h, true
+		}
+		if a.S.W < 63 {
+			return 0, int64(mask(a.S.W)), true
+		}
+	}
+	// narrow types always have a range
+	if t.S.W <= 32 {
+		if signed {
+			lim := int64(1) << uint(t.S.W-1)
+			return -lim, lim - 1, true
+		}
+		return 0, int64(mask(t.S.W)), true
+	}
+	return 0, 0, false
+}
+
+func abs64(x int64) int64 {
+	if x < 0 {
+		return -x
+	}
+	return x
+}
+
+// isI2F reports whether t is an exact integer-to-float conversion i2f(x) (|x| <= 2^53), and
+// returns x sign- or zero-extended to 64 bits.
+func (st *Store) isI2F(t *Term) (*Term, bool) {
+	switch t.Op {
+	case "i2f.s":
+		return st.SignExt(64, t.Args[0]), true
+	case "i2f.u":
+		return st.ZeroExt(64, t.Args[0]), true
+	case "const":
+		if t.S.K == KFP {
+			f := math.Float64frombits(t.Val)
+			if f == math.Trunc(f) && math.Abs(f) <= float64(exactF) && !(f == 0 && math.Signbit(f)) {
+				return st.Const(BV(64), uint64(int64(f))), true
+			}
+		}
+	}
+	return nil, false
 }
 
 type UFDecl struct {
@@ -79,6 +193,7 @@ func (st *Store) Reset() {
 	st.table = map[string]*Term{}
 	st.Vars = st.Vars[:0]
 	st.UFApps = st.UFApps[:0]
+	st.ranges = nil
 	// UF declarations persist (names are global), but are re-declared per solver session.
 }
 
@@ -274,6 +389,13 @@ func (st *Store) Eq(a, b *Term) *Term {
 			return st.Bool(a.Val == b.Val)
 		}
 		return st.Bool(a.Val == b.Val)
+	}
+	if a.S.K == KFP {
+		if x, ok := st.isI2F(a); ok {
+			if y, ok := st.isI2F(b); ok {
+				return st.Eq(x, y)
+			}
+		}
 	}
 	if a.S.K == KBool {
 		if a.IsConst() {
@@ -559,10 +681,29 @@ func (st *Store) FPCmp(op string, a, b *Term) *Term {
 		}
 		return st.Bool(r)
 	}
+	if x, ok := st.isI2F(a); ok {
+		if y, ok := st.isI2F(b); ok {
+			switch op {
+			case "fp.lt":
+				return st.BVCmp("bvslt", x, y)
+			case "fp.leq":
+				return st.BVCmp("bvsle", x, y)
+			case "fp.gt":
+				return st.BVCmp("bvsgt", x, y)
+			case "fp.geq":
+				return st.BVCmp("bvsge", x, y)
+			case "fp.eq":
+				return st.Eq(x, y)
+			}
+		}
+	}
 	return st.mk(op, BoolSort, a, b)
 }
 
 func (st *Store) FPIsNaN(a *Term) *Term {
+	if a.Op == "i2f.s" || a.Op == "i2f.u" {
+		return st.Bool(false)
+	}
 	if a.IsConst() {
 		f := math.Float64frombits(a.Val)
 		return st.Bool(f != f)
@@ -571,6 +712,9 @@ func (st *Store) FPIsNaN(a *Term) *Term {
 }
 
 func (st *Store) FPIsInf(a *Term) *Term {
+	if a.Op == "i2f.s" || a.Op == "i2f.u" {
+		return st.Bool(false)
+	}
 	if a.IsConst() {
 		return st.Bool(math.IsInf(math.Float64frombits(a.Val), 0))
 	}
@@ -584,6 +728,12 @@ func (st *Store) IntToFP(a *Term, signed bool) *Term {
 			return st.Float(float64(sext(a.Val, a.S.W)))
 		}
 		return st.Float(float64(a.Val & mask(a.S.W)))
+	}
+	if lo, hi, ok := st.RangeOf(a, signed); ok && lo >= -exactF && hi <= exactF {
+		if signed {
+			return st.mk("i2f.s", FPSort, a)
+		}
+		return st.mk("i2f.u", FPSort, a)
 	}
 	if signed {
 		return st.mk("((_ to_fp 11 53) RNE", FPSort, a)
@@ -621,6 +771,21 @@ func (st *Store) FPToInt(a *Term, w int, signed bool) *Term {
 			}
 		}
 		return st.Const(BV(w), r)
+	}
+	if x, ok := st.isI2F(a); ok {
+		// exact integer: conversion back is the integer itself when it fits the target
+		if lo, hi, rok := st.RangeOf(x, true); rok {
+			fits := false
+			if signed {
+				lim := int64(1) << uint(w-1)
+				fits = w == 64 || (lo >= -lim && hi < lim)
+			} else {
+				fits = lo >= 0 && (w == 64 || hi <= int64(mask(w)))
+			}
+			if fits {
+				return st.Resize(x, w, true)
+			}
+		}
 	}
 	if !signed {
 		// Only the in-range behaviour is defined by the Go spec; model in-range precisely via
@@ -661,6 +826,9 @@ func (st *Store) FPRound(mode string, a *Term) *Term {
 		case "RTP":
 			return st.Float(math.Ceil(f))
 		}
+	}
+	if a.Op == "i2f.s" || a.Op == "i2f.u" {
+		return a
 	}
 	return st.mk("fp.roundToIntegral "+mode, FPSort, a)
 }
@@ -706,6 +874,12 @@ func (t *Term) render(args []string) string {
 		return "(" + t.Op[3:] + " " + strings.Join(args, " ") + ")"
 	}
 	op := t.Op
+	switch op {
+	case "i2f.s":
+		return "((_ to_fp 11 53) RNE " + args[0] + ")"
+	case "i2f.u":
+		return "((_ to_fp_unsigned 11 53) RNE " + args[0] + ")"
+	}
 	if strings.HasPrefix(op, "((_ ") {
 		// conversion heads carrying an optional rounding mode: "((_ to_fp 11 53) RNE"
 		return op + " " + strings.Join(args, " ") + ")"
